@@ -217,6 +217,32 @@ pub(crate) struct EndpointInner {
     pub(crate) static_config: StaticConfig,
 }
 
+#[cfg(iroh_verif)]
+thread_local! {
+    static VERIF_REMOTE_STATE_LOG: std::cell::RefCell<Vec<(EndpointId, bool)>> =
+        const { std::cell::RefCell::new(Vec::new()) };
+}
+
+/// Verification hook: records a `Socket::try_send_remote_state_msg` call of this thread.
+#[cfg(iroh_verif)]
+fn verif_log_remote_state(endpoint_id: EndpointId, has_actor: bool) {
+    VERIF_REMOTE_STATE_LOG.with(|log| log.borrow_mut().push((endpoint_id, has_actor)));
+}
+
+/// Verification hook: returns and clears the calls recorded by [`verif_log_remote_state`].
+#[cfg(iroh_verif)]
+pub(crate) fn verif_take_remote_state_log() -> Vec<(EndpointId, bool)> {
+    VERIF_REMOTE_STATE_LOG.with(|log| std::mem::take(&mut *log.borrow_mut()))
+}
+
+#[cfg(iroh_verif)]
+impl EndpointInner {
+    /// Verification hook: the shared socket state.
+    pub(crate) fn verif_sock(&self) -> Arc<Socket> {
+        self.sock.clone()
+    }
+}
+
 impl Drop for EndpointInner {
     fn drop(&mut self) {
         if self.sock.is_closed() {
@@ -437,6 +463,8 @@ impl Socket {
         endpoint_id: EndpointId,
         message: RemoteStateMessage,
     ) -> Result<(), RemoteStateMessage> {
+        #[cfg(iroh_verif)]
+        verif_log_remote_state(endpoint_id, self.remote_actors.get(&endpoint_id).is_some());
         let Some(sender) = self.remote_actors.get(&endpoint_id) else {
             return Err(message);
         };
